@@ -9,32 +9,92 @@ tprog.ENTRIES = True        # function / Tensor method / operator / augmented op
 PROP = 'C07'
 LEAN_TARGETS = ['Props.C07']
 REQUIRED_THEOREMS = ['Props.C07.modes_stack', 'Props.C07.ctx_restores', 'Props.C07.result_requires_grad_rule',
-                     'Props.C07.no_grad_result_has_no_history', 'Props.C07.release_rule', 'Props.C07.float_only']
+                     'Props.C07.no_grad_result_has_no_history', 'Props.C07.release_rule', 'Props.C07.float_only',
+                     'Props.C07.detach_is_plain', 'Props.C07.gradTensor_is_plain', 'Props.C07.fromData_is_leaf', 'Props.C07.copyTensor_same']
+REQUIRED_THEOREMS += ['Props.C07.' + t for t in ['src_creation_rule_is_model', 'src_is_leaf_is_model', 'src_requires_grad_setter_is_model', 'src_retain_grad_is_model', 'src_ctx_new_is_model', 'src_ctx_enter_is_model', 'src_ctx_exit_is_model']]   # ties to the source read on this run
 RULE = ('event sequences: context objects created (possibly long before use, re-used, entered while another is active), '
         'well-nested enter/exit at depth <= 5 incl. exits by exception, leaves created with either flag and float/int dtype, ops on '
         'mixed operands inside and outside contexts, requires_grad toggled on leaves and non-leaves, retain_grad, backward inside / '
         'outside contexts; compared after every event: global modes, flags (requires_grad, is_leaf, grad_fn, has grad, #children) '
-        'of every tensor. Non-trivial: nesting depth >= 2 with a pre-constructed context and at least one op inside no_grad.')
+        'of every tensor. Tensors made from tensors without an op (detach, Tensor(t.data, requires_grad=...), the copy constructor '
+        'Tensor(t), the .grad getter, clone) applied to leaves / intermediates / roots / constants in every life-cycle state (fresh, '
+        'after backward, retained, under retain_grads, after two calls, zeroed, frozen, root of an interior call, after a refused call), '
+        'inside and outside no_grad, the results queried, used by later ops and differentiated. The flag rule for every nn op under '
+        'every mode / option combination: batch_norm (training x running statistics both / none / one-sided x weight x bias; function '
+        'and BatchNorm1d/2d layer object in train() / eval()), Dropout (train / eval x p in {0, 0.5, 1}), every loss x reduction, each with '
+        'every operand flag pattern, inside and outside no_grad. '
+        'Non-trivial: nesting depth >= 2 with a pre-constructed context and at least one op inside no_grad.')
 EXHAUSTIVE = {'quick': False, 'thorough': False}
 ASSUMPTIONS = ['exit by exception is exercised by calling __exit__ with exception info (what the with-statement does)']
 TRUSTED_BASE = ['harness/tprog.py']
 OPS = ['add', 'mul', 'neg', 'sum', 'clone', 'self2', 'reshape']
 
 
+def _flags(x):
+    return (f'rg={int(x.requires_grad)} leaf={int(x.is_leaf)} fn={int(x.grad_fn is not None)} '
+            f'grad={int(x._grad is not None)} children={len(x._children)}')
+
+
 class Exec(tprog.Impl):
     def run(self, line):
         t = line.split(' ')
+        sg = self.sg
         if t[1] == 'ctx' and t[2] == 'exitexc':
             self.ctxs[int(t[3])].__exit__(ValueError, ValueError('x'), None); return 'ok'
+        # ---- tensors made from tensors without an op
+        if t[1] == 'detach':
+            self.ts.append(self.ts[int(t[2])].detach()); return f't{len(self.ts) - 1}'
+        if t[1] == 'fromdata':          # the `.data` round trip: t fromdata <i> <requires_grad> data|copy
+            x = self.ts[int(t[2])]
+            self.ts.append(sg.Tensor(x.data if t[4] == 'data' else x.data.copy(), requires_grad=bool(int(t[3])))); return f't{len(self.ts) - 1}'
+        if t[1] == 'copy':              # the copy constructor
+            self.ts.append(sg.Tensor(self.ts[int(t[2])])); return f't{len(self.ts) - 1}'
+        if t[1] == 'gradt':             # the .grad getter: None, or a new tensor whose flags are the answer
+            g = self.ts[int(t[2])].grad
+            return 'none' if g is None else _flags(g)
+        if t[1] == 'dropout':           # t dropout <i> <p bits> <train>: a Dropout layer object in train() / eval() mode
+            x = self.ts[int(t[2])]
+            m = self.nn.Dropout(common.bitsf(t[3]))
+            m.train() if int(t[4]) else m.eval()
+            out = m(x)
+            if out is not x: self.ts.append(None)      # the mask tensor of x * mask (a node of the model, not reachable here)
+            self.ts.append(out)
+            if out.grad_fn is not None and out is not x: self.fn_owner[id(out.grad_fn)] = len(self.ts) - 1
+            return f't{len(self.ts) - 1}'
         return super().run(line)
+
+    def call_nn(self, name, x, args):
+        """batch_norm: half of the calls go through a BatchNorm1d / BatchNorm2d layer OBJECT put into train() / eval() mode
+        (affine = weight and bias both present, track_running_stats = both statistics present) whose parameters are the program's
+        operand tensors"""
+        if name == 'batch_norm':
+            route = sum(map(ord, ' '.join(map(str, args)))) % 2        # (a program is run by a fresh executor: the route derives from the arguments)
+            hw, hb, tr = bool(int(args[0])), bool(int(args[1])), bool(int(args[2]))
+            both, neither = args[4] != '-' and args[5] != '-', args[4] == '-' and args[5] == '-'
+            if route == 0 and hw == hb and (both or neither) and x[0].data.ndim in (2, 3, 4) and x[0].data.dtype.kind == 'f':
+                cls = self.nn.BatchNorm1d if x[0].data.ndim < 4 else self.nn.BatchNorm2d
+                m = cls(x[0].shape[1], eps=common.bitsf(args[3]), momentum=0.1, affine=hw, track_running_stats=both, dtype=x[0].data.dtype)
+                if hw:
+                    object.__setattr__(m, 'weight', x[1]); object.__setattr__(m, 'bias', x[2])
+                if both:
+                    m.running_mean.data = np.array(common.parse_floats(args[4]), dtype=x[0].data.dtype)
+                    m.running_var.data = np.array(common.parse_floats(args[5]), dtype=x[0].data.dtype)
+                m.train() if tr else m.eval()
+                return m(x[0])
+        return super().call_nn(name, x, args)
 
 
 def to_model(line):
-    """complex / unsigned / 16-bit / bool dtypes are all `not floating point` for the model: spelled i64 there"""
+    """complex / unsigned / 16-bit / bool dtypes are all `not floating point` for the model: spelled i64 there. The model has
+    one spelling of the `.data` round trip; Dropout in train mode is x * mask (a hidden constant tensor and the product), in eval
+    mode it hands back its operand (a second name for the same attributes)"""
     t = line.split(' ')
     if len(t) > 2 and t[1] == 'leaf' and t[2] in ('c64', 'c128', 'u8', 'i16', 'bool'):
         t[2] = 'i64'
         return ' '.join(t)
+    if len(t) > 2 and t[1] == 'fromdata': return ' '.join(t[:4])
+    if len(t) > 2 and t[1] == 'dropout':
+        return f't sop mul {t[2]} s{common.fbits(1.0)}' if int(t[4]) else f't copy {t[2]}'
     return line
 
 
@@ -47,6 +107,8 @@ def gen_seq(rng, tier):
     created_at_depth = {}
     active = []     # stack of (ctx id, kind)
     ints = set()
+    tainted = set()  # copy-constructed tensors and everything computed from them: they share buffers / backward functions with
+                     # their source, which the model (one node per tensor) does not express — flags only, never differentiated
 
     def q():
         nt = len(P.tshape)
@@ -65,7 +127,7 @@ def gen_seq(rng, tier):
     def event():
         r = rng.random()
         nt = len(P.tshape)
-        if r < 0.18 or nt == 0:
+        if r < 0.16 or nt == 0:
             sh = rng.pick([(2,), (), (2, 2)])
             dt = rng.pick(['f64', 'f64', 'f64', 'f64', 'i64', 'c128', 'c64', 'u8', 'i16', 'bool'])   # float32 rounding of gradients is C10's subject
             rg = rng.chance(.6)
@@ -75,6 +137,26 @@ def gen_seq(rng, tier):
             if not (rg and dt != 'f64' and not any(k == 'ng' for _, k in active)):
                 tid = P.add_leaf(sh, data, rg, dt)
                 if dt != 'f64': ints.add(tid)
+        elif r < 0.28:
+            # a tensor made from a tensor without an op — whatever state the source is in by now
+            src = rng.randrange(nt)
+            d = rng.pick(['detach', 'detach', 'copy', 'fromdata', 'fromdata', 'gradt', 'like'])
+            stats['derived'] = stats.get('derived', 0) + 1
+            if d == 'gradt':
+                lines.append(f't gradt {src}')
+                return q()
+            if d == 'fromdata':
+                rg = rng.chance(.5)
+                lines.append(f't fromdata {src} {int(rg)} {rng.pick(["data", "copy"])}')
+                if rg and src in ints and not any(k == 'ng' for _, k in active):
+                    return q()          # refused: only floating-point tensors can require grad
+            elif d == 'like':
+                lines.append(f't ctor like {rng.randint(0, 1)} {src}')
+            else:
+                lines.append(f't {d} {src}')
+            tid = P.add_leaf(P.tshape[src], [], False)
+            if src in ints: ints.add(tid)
+            if d == 'copy': tainted.add(tid)
         elif r < 0.50:
             flo = [t for t in range(nt) if t not in ints]
             if not flo: return
@@ -84,14 +166,21 @@ def gen_seq(rng, tier):
                 nd = P.nodes[-1]
                 lines.append(' '.join(['t op', nd['name'], show_ints(nd['ins'])] + [str(a) for a in nd['args']]))
                 if any(k == 'ng' for _, k in active): stats['op_in_ng'] = True
-        elif r < 0.58:
+                if any(i in tainted for i in nd['ins']): tainted.update(nd['outs'])
+        elif r < 0.57:
             lines.append(f't setrg {rng.randrange(nt)} {rng.randint(0, 1)}')
-        elif r < 0.63:
+        elif r < 0.60:
+            flo = [t for t in range(nt) if t not in ints]
+            if flo: lines.append(f't zero {rng.pick(flo)}')       # the user resets a buffer (any floating-point tensor)
+        elif r < 0.64:
             lines.append(f't retain {rng.randrange(nt)}')
         elif r < 0.73:
-            t = rng.randrange(nt)
+            ok = [t for t in range(nt) if t not in tainted]
+            if not ok: return
+            t = rng.pick(ok)
             lines.append(f"t bw {t} {show_ints(P.tshape[t])} {show_floats(gen_dag.rand_data(rng, P.tshape[t]))}")
-            for k in range(nt): lines.append(f't grad {k}')
+            for k in range(nt):
+                if k not in tainted: lines.append(f't grad {k}')
         elif r < 0.80:
             new_ctx()
         elif r < 0.93 and len(active) < 5:
@@ -180,8 +269,144 @@ def op_flag_case(rng, op):
     return lines, {'maxdepth': 1, 'pre': False, 'op_in_ng': ng}
 
 
+STATES = ['fresh', 'after backward', 'intermediate marked with retain_grad, after backward', 'after backward under retain_grads', 'after two backward calls',
+          'after backward, leaf and root zeroed', 'after backward, leaf frozen (requires_grad switched off)', 'after backward from the intermediate (it is the root)',
+          'after a backward call refused for the shape of its gradient']
+DERIVE = ['detach', 'copy', 'fromdata 0', 'fromdata 1', 'clone', 'like', 'gradt']
+
+
+def lifecycle_case(rng, state, ng):
+    """the graph  x (leaf) , c (constant) -> a = x * c -> h = a + x -> root = h * h  brought into `state`; then EVERY tensor-from-
+    tensor derivation applied to EVERY tensor of it (inside no_grad when `ng`), the flags of every result, the results used by a
+    later op and differentiated where that is defined, and finally the flags and gradients of the sources once more"""
+    D = lambda: show_floats(gen_dag.rand_data(rng, (2,)))
+    lines = [gen_dag.leaf_line((2,), [float(rng.randint(1, 3)), float(rng.randint(-3, -1))], True),
+             gen_dag.leaf_line((2,), [float(rng.randint(1, 3)), float(rng.randint(1, 3))], False),
+             't op mul 0,1', 't op add 2,0', 't op mul 3,3']
+    nt, nctx = 5, 0
+    bad_bw = []
+    k = STATES.index(state)
+    if k == 1: lines += [f't bw 4 2 {D()}']
+    elif k == 2: lines += ['t retain 2', f't bw 4 2 {D()}']
+    elif k == 3: lines += ['t ctx new rg', 't ctx enter 0', f't bw 4 2 {D()}', 't ctx exit 0']; nctx = 1
+    elif k == 4: lines += [f't bw 4 2 {D()}', f't bw 4 2 {D()}']
+    elif k == 5: lines += [f't bw 4 2 {D()}', 't zero 0', 't zero 4']
+    elif k == 6: lines += [f't bw 4 2 {D()}', 't setrg 0 0']
+    elif k == 7: lines += [f't bw 2 2 {D()}']
+    elif k == 8:
+        lines += [f"t bw 4 2,2 {show_floats(gen_dag.rand_data(rng, (2, 2)))}"]; bad_bw.append(len(lines) - 1)
+    lines += [f't flags {i}' for i in range(nt)]
+    if ng: lines += ['t ctx new ng', f't ctx enter {nctx}']
+    made = []
+    for src in range(5):
+        for d in DERIVE:
+            if d == 'gradt':
+                lines.append(f't gradt {src}'); continue
+            if d == 'clone': lines.append(f't op clone {src}')
+            elif d == 'like': lines.append(f't ctor like {rng.randint(0, 1)} {src}')          # zeros_like / ones_like
+            elif d.startswith('fromdata'): lines.append(f't fromdata {src} {d[-1]} {rng.pick(["data", "copy"])}')
+            else: lines.append(f't {d} {src}')
+            made.append((nt, d, src)); nt += 1
+            lines.append(f't flags {nt - 1}')
+    if ng: lines += [f't ctx exit {nctx}']
+    lines.append('t modes')
+    # the results at work: as operands (the flag travels on), as roots (a tensor that does not require grad refuses backward)
+    for tid, d, src in made:
+        if d == 'copy':
+            lines += [f't op mul {tid},1', f't flags {nt}']; nt += 1
+            continue
+        lines += [f't op mul {tid},0', f't flags {nt}']; nt += 1
+        if d in ('detach', 'fromdata 0', 'like') or rng.chance(.3):
+            lines += [f't bw {tid} 2 {D()}', f't flags {tid}', f't grad {tid}']
+        if d in ('detach', 'fromdata 0', 'fromdata 1', 'like') and rng.chance(.5):
+            # the flag toggled on the new leaf (a detached tensor turned into a parameter of its own): it starts without a gradient,
+            # and what one sweep leaves on it is that sweep's contribution alone
+            lines += [f't setrg {tid} 1', f't flags {tid}', f't op mul {tid},{tid}', f't bw {nt} 2 {D()}', f't flags {tid}', f't grad {tid}',
+                      f't setrg {tid} 0', f't flags {tid}']; nt += 1
+    if k != 6 and rng.chance(.5):       # one more sweep through the original graph: the derived tensors stay as they are
+        lines += [f't bw 4 2 {D()}']
+    lines += [f't flags {t}' for t in range(nt) if t not in [m[0] for m in made if m[1] == 'copy']] + [f't grad {i}' for i in range(5)]
+    lines += [f't flags {m[0]}' for m in made if m[1] == 'copy']
+    return lines, {'maxdepth': 1, 'pre': False, 'op_in_ng': ng, 'state': state}, bad_bw
+
+
+def bn_mode_case(rng, tr, stats, hw, hb, ng):
+    """F.batch_norm / BatchNorm layer under ONE combination of training x running statistics (both / none / mean only / var only) x
+    weight x bias; the operand flags are drawn (mostly at least one requires grad), inside or outside no_grad"""
+    c = rng.randint(1, 3)
+    sh = (rng.randint(2, 4), c) + rng.pick([(), (rng.randint(1, 3),), (rng.randint(1, 2), rng.randint(1, 2))])
+    V = lambda s_: gen_dag.rand_data(rng, s_)
+    nop = 1 + int(hw) + int(hb)
+    flags = [rng.chance(.6) for _ in range(nop)]
+    if rng.chance(.15): flags = [False] * nop
+    elif not any(flags): flags[rng.randrange(nop)] = True
+    lines = [gen_dag.leaf_line(sh, V(sh), flags[0])] + [gen_dag.leaf_line((c,), V((c,)), f) for f in flags[1:]]
+    rm = show_floats([rng.dyadic(-1, 1) for _ in range(c)]) if stats in ('both', 'mean') else '-'
+    rv = show_floats([rng.randint(2, 24) / 8 for _ in range(c)]) if stats in ('both', 'var') else '-'
+    if ng: lines += ['t ctx new ng', 't ctx enter 0']
+    lines.append(f"t op batch_norm {show_ints(range(nop))} {int(hw)} {int(hb)} {int(tr)} {common.fbits(rng.pick([1e-5, 1e-3, 0.1]))} {rm} {rv}")
+    lines += [f't flags {nop}']
+    if ng: lines += ['t ctx exit 0']
+    lines += [f't flags {i}' for i in range(nop)] + [f't op mul {nop},{nop}', f't flags {nop + 1}', 't modes']
+    if stats in ('both', 'none'):        # (the arithmetic of a one-sided call is not this property's subject: flags only)
+        lines += [f"t bw {nop + 1} {show_ints(sh)} {show_floats(V(sh))}"] + [f't flags {i}' for i in range(nop + 2)]
+    return lines, {'maxdepth': 1, 'pre': False, 'op_in_ng': ng, 'mode': f"batch_norm training={int(tr)} running stats={stats} weight={int(hw)} bias={int(hb)}"}
+
+
+def dropout_mode_case(rng, p, train, rg, ng):
+    sh = rng.pick([(3,), (2, 2), ()])
+    lines = [gen_dag.leaf_line(sh, gen_dag.rand_data(rng, sh), rg)]
+    if ng: lines += ['t ctx new ng', 't ctx enter 0']
+    lines.append(f't dropout 0 {common.fbits(p)} {int(train)}')
+    r = 2 if train else 1
+    lines.append(f't flags {r}')
+    if ng: lines += ['t ctx exit 0']
+    lines += [f't op mul {r},{r}', f't flags {r + 1}', 't flags 0', 't modes']
+    return lines, {'maxdepth': 1, 'pre': False, 'op_in_ng': ng, 'mode': f'Dropout p={p} train={int(train)}'}
+
+
+LOSSES = ['mse_loss', 'nll_loss', 'binary_cross_entropy', 'binary_cross_entropy_with_logits', 'cross_entropy']
+
+
+def loss_mode_case(rng, name, red):
+    """every loss class under every reduction (the reduced loss is a second op on top of the unreduced one)"""
+    import gen_ops
+    leaves, args = gen_ops.gen_nn(rng, name, False)
+    flags = [rng.chance(.6), rng.chance(.4) if name == 'mse_loss' else False]
+    lines = [gen_dag.leaf_line(lf[0], lf[1], f, lf[3] if len(lf) > 3 else 'f64') for lf, f in zip(leaves, flags)]
+    ng = rng.chance(.3)
+    if ng: lines += ['t ctx new ng', 't ctx enter 0']
+    lines.append(' '.join(['t loss', name, red, '0', '1'] + [str(a) for a in args]))
+    r = 2 if red == 'none' else 3
+    lines += [f't flags {k}' for k in range(2, r + 1)]
+    if ng: lines += ['t ctx exit 0']
+    lines += [f't op mul {r},{r}', f't flags {r + 1}', 't modes']
+    return lines, {'maxdepth': 1, 'pre': False, 'op_in_ng': ng, 'mode': f'{name} reduction={red}'}
+
+
+def extract():
+    """the conditions of tensor creation, the flag setters and the grad-mode contexts are re-read from tensor.py (Generated/EngineLogic.lean);
+    the src_* theorems are re-checked against them by the build that follows"""
+    import engine_logic
+    return engine_logic.write()[0]
+
+
+def logic_cases():
+    """family `logic`: every row of the truth table of every generated condition (driver) against the source's own expression evaluated by
+    Python with the atoms replaced by constants — validates the Boolean translation of harness/engine_logic.py"""
+    import engine_logic
+    try:
+        cs = engine_logic.logic_cases()
+    except Exception:
+        return []                         # tensor.py not readable: the build of Props.C07 reports it
+    for c in cs:
+        c['stats'] = {'maxdepth': 0, 'pre': False, 'op_in_ng': False}
+    return cs
+
+
 def cases(rng, tier):
     out = []
+    out += logic_cases()
     import gen_ops
     for op in gen_ops.OPS_BASIC + gen_ops.OPS_NN:
         for _ in range((14 if op in ('linear', 'conv1d', 'conv2d') else 6) if tier == 'quick' else 60):
@@ -208,6 +433,27 @@ def cases(rng, tier):
             lines = [gen_dag.leaf_line(sh, [float(rng.randint(1, 3)) for _ in range(n)], rg)] + (['t ctx new ng', 't ctx enter 0'] if ng else []) + \
                     [f't op {opl}', 't flags 1', 't flags 0', 't op mul 1,1', 't flags 2'] + (['t ctx exit 0'] if ng else []) + ['t op mul 1,0', 't flags 3', 't modes']
             out.append({'lines': lines, 'stats': {'maxdepth': 1, 'pre': False, 'op_in_ng': ng}, 'desc': 'no-op arguments: ' + ' ; '.join(lines)[:300]})
+    mk = lambda lines, stats, tag, **kw: dict({'lines': lines, 'stats': stats, 'desc': tag + ': ' + ' ; '.join(l for l in lines if not l.startswith(('t flags', 't modes', 't grad ')))[:900]}, **kw)
+    for rep in range(2 if tier == 'quick' else 30):
+        for state in STATES:
+            for ng in (False, True):
+                lines, stats, bad = lifecycle_case(rng, state, ng)
+                out.append(mk(lines, stats, f'life cycle [{state}{", derived inside no_grad" if ng else ""}]', bad_bw=bad))
+    for rep in range(1 if tier == 'quick' else 20):
+        for tr in (False, True):
+            for st_ in ('both', 'none', 'mean', 'var'):
+                for hw in (False, True):
+                    for hb in (False, True):
+                        for ng in (False, True):
+                            out.append(mk(*bn_mode_case(rng, tr, st_, hw, hb, ng), 'nn mode'))
+        for p_ in (0.0, 0.5, 1.0):
+            for train in (False, True):
+                for rg in (False, True):
+                    for ng in (False, True):
+                        out.append(mk(*dropout_mode_case(rng, p_, train, rg, ng), 'nn mode'))
+        for name in LOSSES:
+            for red in ('mean', 'sum', 'none'):
+                out.append(mk(*loss_mode_case(rng, name, red), 'nn mode'))
     for _ in range(3 if tier == 'quick' else 16):
         lines, stats = fresh_seq(rng)
         out.append({'lines': lines, 'stats': stats, 'fresh': True, 'desc': 'fresh interpreter: ' + ' ; '.join(l for l in lines if not l.startswith(('t flags', 't modes')))[:900]})
@@ -251,6 +497,7 @@ def _io(c):
 
 
 def impl(c):
+    if c.get('kind') == 'logic': return list(c['want'])
     return _io(c)
 
 
@@ -267,6 +514,7 @@ def fresh_seq(rng):
 
 
 def compare(c, mo, io):
+    if c.get('kind') == 'logic': return [(l, m, i) for l, m, i in zip(c['lines'], mo, io) if m != i][:3]
     return tprog.diff_program(c['lines'], mo, io)
 
 
@@ -278,15 +526,26 @@ def nontrivial(c):
 def distribution(cases):
     d = {'maxdepth': max(c['stats']['maxdepth'] for c in cases)}
     d['exhaustive: all well-formed words of length <= 6 over enter c0/c1/c2, exit, exit by exception, op'] = sum(1 for c in cases if c.get('exhaustive'))
+    d['logic: truth-table rows of the conditions read from tensor.py'] = sum(1 for c in cases if c.get('kind') == 'logic')
     for c in cases:
+        if c.get('kind') == 'logic': continue
         for l in c['lines']:
             k = ' '.join(l.split(' ')[1:3]) if l.startswith('t ctx') else l.split(' ')[1]
             d[k] = d.get(k, 0) + 1
+        st = c['stats']
+        if st.get('state'):       # life-cycle state in which every derivation (detach, copy constructor, .data round trip, clone, .grad) is applied to every tensor
+            k = f"derivations x tensors in state: {st['state']}{' (inside no_grad)' if st['op_in_ng'] else ''}"
+            d[k] = d.get(k, 0) + 1
+        if st.get('mode'):        # nn op under one mode / option combination
+            k = f"nn mode: {st['mode']}{' (inside no_grad)' if st['op_in_ng'] else ''}"
+            d[k] = d.get(k, 0) + 1
+    d['tensor-from-tensor derivations inside random event sequences'] = sum(c['stats'].get('derived', 0) for c in cases)
     return d
 
 
 # ---- oracle: the property's predicates evaluated on the observed answers ------------------------
 def oracle(c):
+    if c.get('kind') == 'logic': return None
     io = _io(c)
     stack = []                       # (ctx id, kind, mode value at enter)
     grad, retain = True, False
@@ -294,10 +553,24 @@ def oracle(c):
     ntens = 0
     rg_of = {}
     ever = set()      # tensors that required grad at some point (a frozen leaf keeps the gradient it had)
+    assigned = set()  # tensors whose buffer the USER set (zero_()) — and copy-constructed tensors, which take over their source's buffer
+    isfloat = {}
+    bad_bw = set(c.get('bad_bw') or [])
+    plain = 'rg=0 leaf=1 fn=0 grad=0 children=0'
     for li, (l, o) in enumerate(zip(c['lines'], io)):
         t = l.split(' ')
         def fail(cls, what):
-            return {'key': {'cls': cls}, 'case': {'lines': c['lines'][:li + 1], 'fresh': bool(c.get('fresh'))}, 'what': what}
+            return {'key': {'cls': cls}, 'case': {'lines': c['lines'][:li + 1], 'fresh': bool(c.get('fresh')), 'bad_bw': sorted(bad_bw)}, 'what': what}
+        def new(rg, fl=True, like=None):
+            nonlocal ntens
+            rg_of[ntens] = rg
+            isfloat[ntens] = fl
+            if rg: ever.add(ntens)
+            if like is not None:
+                if like in ever: ever.add(ntens)
+                assigned.add(ntens)
+            ntens += 1
+            return ntens - 1
         if t[1] == 'ctx' and t[2] == 'enter':
             kind = None
             # kind is known from the creation line
@@ -316,34 +589,67 @@ def oracle(c):
                 return fail('modes', f'global modes are {o}, a stack of contexts gives {int(grad)}{int(retain)}')
         elif t[1] == 'leaf':
             if o != 'rejected':
-                rg_of[ntens] = bool(int(t[4])) and grad
-                if rg_of[ntens]: ever.add(ntens)
-                if t[2] not in ('f64', 'f32') and rg_of[ntens]:
+                k = new(bool(int(t[4])) and grad, t[2] in ('f64', 'f32'))
+                if t[2] not in ('f64', 'f32') and rg_of[k]:
                     return fail('float-only', f'a tensor of dtype {t[2]} (not floating point) was made to require grad')
-                ntens += 1
             elif not (t[2] not in ('f64', 'f32') and bool(int(t[4])) and grad):
                 return fail('leaf-rejected', 'leaf creation raised')
         elif t[1] == 'op' and o != 'rejected':
             ins = common.parse_ints(t[3])
             want = grad and any(rg_of.get(i, False) for i in ins)
             for _ in o.split(','):
-                rg_of[ntens] = want
-                if want: ever.add(ntens)
-                ntens += 1
+                new(want)
+        elif t[1] == 'loss' and o != 'rejected':
+            want = grad and (rg_of.get(int(t[4]), False) or rg_of.get(int(t[5]), False))
+            new(want)
+            if t[3] != 'none': new(want)          # the reduction is a second op on the unreduced loss
+        elif t[1] == 'detach':
+            if o == 'rejected': return fail('detach-raised', f'detach() of t{t[2]} raised')
+            new(False, isfloat.get(int(t[2]), True))
+        elif t[1] == 'ctor' and t[2] == 'like':
+            if o == 'rejected': return fail('like-raised', f'zeros_like / ones_like of t{t[4]} raised')
+            new(False, isfloat.get(int(t[4]), True))
+        elif t[1] == 'fromdata':
+            src, want_rg = int(t[2]), bool(int(t[3]))
+            if o != 'rejected':
+                k = new(want_rg and grad, isfloat.get(src, True))
+                if rg_of[k] and not isfloat[k]:
+                    return fail('float-only', f'Tensor(t{src}.data, requires_grad=True) over data that is not floating point was accepted')
+            elif not (want_rg and grad and not isfloat.get(src, True)):
+                return fail('leaf-rejected', f'Tensor(t{src}.data, requires_grad={want_rg}) raised')
+        elif t[1] == 'copy':
+            if o == 'rejected': return fail('copy-raised', f'Tensor(t{t[2]}) raised')
+            src = int(t[2])
+            new(rg_of.get(src, False), isfloat.get(src, True), like=src)        # documented: every attribute of the source
+        elif t[1] == 'gradt':
+            if o not in ('none', 'rejected') and o != plain:
+                return fail('no-history', f'the tensor handed out by t{t[2]}.grad is not a plain tensor: {o}')
+        elif t[1] == 'dropout':
+            if o == 'rejected': return fail('dropout-raised', 'Dropout forward raised')
+            src = int(t[2])
+            if int(t[4]):
+                new(False); new(grad and rg_of.get(src, False))       # mask, product
+            else:
+                new(rg_of.get(src, False), like=src)                  # eval mode hands back its operand
+        elif t[1] == 'zero' and o == 'ok':
+            assigned.add(int(t[2]))
         elif t[1] == 'setrg' and o == 'ok':
             rg_of[int(t[2])] = bool(int(t[3]))
             if rg_of[int(t[2])]: ever.add(int(t[2]))
         elif t[1] == 'flags':
             k = int(t[2])
+            if '=' not in o: continue             # hidden / no such tensor
             f = dict(kv.split('=') for kv in o.split(' '))
             if bool(int(f['rg'])) != rg_of.get(k, False):
                 return fail('requires_grad', f't{k}.requires_grad is {f["rg"]}, the rule (mode and any operand) gives {int(rg_of.get(k, False))}')
             if rg_of.get(k, False): ever.add(k)
-            if f['rg'] == '0' and (f['fn'] == '1' or (f['grad'] == '1' and k not in ever) or f['children'] != '0'):
+            if f['rg'] == '0' and (f['fn'] == '1' or (f['grad'] == '1' and k not in ever and k not in assigned) or f['children'] != '0'):
                 return fail('no-history', f't{k} does not require grad but has {o}')
         elif t[1] == 'bw':
             k = int(t[2])
-            if (o == 'rejected') != (not rg_of.get(k, False)):
+            if li in bad_bw:
+                if o != 'rejected': return fail('backward-accept', f'backward on t{k} accepted a gradient of another shape')
+            elif (o == 'rejected') != (not rg_of.get(k, False)):
                 return fail('backward-accept', f'backward on t{k} (requires_grad={rg_of.get(k)}) answered {o[:20]}')
     return None
 
